@@ -818,7 +818,11 @@ impl MachineState {
                     self.fail = true;
                     return Ok(());
                 }
-            } else if !max_steps.map(|n| n.is_integer()).unwrap_or(false) {
+            } else if !max_steps
+                .map(|n| n.is_integer() && !n.is_negative())
+                .unwrap_or(false)
+            {
+                // not an integer, or a negative integer below i64::MIN
                 self.fail = true;
                 return Ok(());
             }
